@@ -219,7 +219,9 @@ pub fn main_loop(progs: &[(&str, Factory)]) {
                inst.load(rel, &toks[4..], op == "push")?;
                Some("ok".into())
             },
-            "run" => {
+            // `runp`: the Lean side evaluates the same program with the physical-index engine model (Model/EnginePhys.lean);
+            // for the real code both are `run()`
+            "run" | "runp" => {
                insts.get_mut(toks.get(2)?.atom()?)?.run();
                Some("ok".into())
             },
